@@ -676,13 +676,20 @@ class _Activation:
     # -------------------------------------------------------------- calls
     def e_Call(self, e: ast.Call):
         c = self.ana.res.callee(self.fi, e)
-        argv = [self.eval(a) for a in e.args]
+        argv = [self.eval(a) for a in e.args if not isinstance(a, ast.Starred)]
         kwv = {k.arg: self.eval(k.value) for k in e.keywords if k.arg is not None}
+        # argument packs (*seq, **mapping): which parameter receives which element is not known statically, so every
+        # element may reach every parameter
+        star: Set[Obj] = set()
+        for a in e.args:
+            if isinstance(a, ast.Starred):
+                star |= self.elems(self.eval(a.value))
         for k in e.keywords:
             if k.arg is None:
-                self.eval(k.value)
+                star |= self.elems(self.eval(k.value))
             if k.arg == "out":
                 self.oa.record(self.fi, e, kwv["out"], "out=", self.ctx)
+        self._star = star
         if c.kind == "internal" and c.func is not None:
             return self.call_internal(c.func, e, argv, kwv, None)
         if c.kind == "method_internal" and c.func is not None:
@@ -709,8 +716,29 @@ class _Activation:
             params = params[1:]
         for p, a in zip(params, argv):
             out[p] = a
+        named = set(f.own_params)
+        extra_kw: Set[Obj] = set()
         for k, v in kwv.items():
-            out[k] = v
+            if k in named:
+                out[k] = v
+            else:
+                extra_kw |= v
+        star = getattr(self, "_star", set())
+        if star:
+            for p in params:
+                out[p] = out.get(p, set()) | star
+        a = f.node.args
+        if a.kwarg is not None:
+            d = self.oa.alloc(f.node, self.ctx, "kwargs")
+            self.oa.heap.add(d, ELEM, extra_kw | star)
+            out[a.kwarg.arg] = {d}
+        if a.vararg is not None:
+            t = self.oa.alloc(f.node.args, self.ctx, "varargs")
+            extra_pos: Set[Obj] = set()
+            for x in argv[len(params):]:
+                extra_pos |= x
+            self.oa.heap.add(t, ELEM, extra_pos | star)
+            out[a.vararg.arg] = {t}
         return out
 
     def call_internal(self, f: FuncInfo, e, argv, kwv, recv) -> Set[Obj]:
@@ -728,6 +756,10 @@ class _Activation:
                 self.oa.heap.add(o, n, v)
             for n, v in kwv.items():
                 self.oa.heap.add(o, n, v)
+            star = getattr(self, "_star", set())
+            if star:
+                for n in names:
+                    self.oa.heap.add(o, n, star)
         return {o}
 
     def call_external(self, fq: str, e, argv, kwv) -> Set[Obj]:
